@@ -71,10 +71,13 @@ def main(tier):
     engine, free = _build()
     cs = all_cases(tier)
     res, vecs = mc_lib.run(engine, [(c["id"], c["line"]) for c in cs])
-    tot = dict(schedules=0, epochs=0, blocks=0, accesses=0, granules=0, pairs=0, writerepochs=0, memops=0, auditblocks=0, regions=0)
+    tot = dict(schedules=0, epochs=0, blocks=0, accesses=0, granules=0, pairs=0, writerepochs=0, memops=0, auditblocks=0, regions=0, criticals=0)
     nontrivial = 0
+    sched_dep_access = []
     for c in cs:
         r = res.get(c["id"], {"status": "crash", "kind": "missing"})
+        if r.get("status") == "ok" and int(r.get("sigmismatch", 0)) != 0:
+            sched_dep_access.append(c["id"])
         for key, what in judge(c, r, engine):
             rep.violation(key, what + "  [case %s]" % {k: c[k] for k in c if k not in ("line",)}, {"case": c["line"], "sched": r.get("badsched", "")})
         if r.get("status") == "ok":
@@ -88,6 +91,8 @@ def main(tier):
         "granules_checked": tot["granules"], "member_pair_comparisons": tot["pairs"], "logged_memmove_memcpy_memset": tot["memops"],
         "epochs_with_two_or_more_writers": tot["writerepochs"], "audited_blocks": tot["auditblocks"],
         "evaluations": len(cs), "distinct_nontrivial": nontrivial,
+        "critical_sections_passed": tot.get("criticals", 0),
+        "cases_with_schedule_dependent_access_sets": sched_dep_access[:20],
         "team_sizes": tier_Ts(tier),
         "rule": "cases = {residual, smoother, extrapolated smoother, direct-solver assembly} x {give, take} x 48 shapes (circles 2..9, "
                 "ntheta in {4,..,24}, radial length 3..5, both boundary modes) x team sizes, level caches, transfers (small and "
@@ -97,8 +102,14 @@ def main(tier):
         "samples": [cs[0]["line"][:300], cs[-1]["line"]],
         "exhaustive": True,
     }
-    return rep.finish(cov, ["barriers are the only synchronisation in this code base: two accesses are concurrent iff they fall in the "
-                            "same barrier epoch on different members", "g++ lowering of OpenMP (GOMP_parallel/GOMP_barrier, static "
+    if sched_dep_access:
+        # access sets that depend on the arrival order (possible under a critical section): the identity schedule no longer stands
+        # for all schedules of the case; race freedom is then shown for the explored schedules only
+        rep.note_incomplete("%d case(s) have schedule-dependent access sets: race freedom shown for the explored schedules (identity + every "
+                            "single-epoch deviation), not by the equivalence argument" % len(sched_dep_access))
+    return rep.finish(cov, ["synchronisation understood by the engine: barriers (two accesses are concurrent iff they fall in the same barrier "
+                            "epoch on different members), the unnamed critical section and lock-based atomics (two accesses under the same "
+                            "lock are ordered); the code base as given uses barriers only", "g++ lowering of OpenMP (GOMP_parallel/GOMP_barrier, static "
                             "schedules inlined); instrumentation by the -fsanitize=thread compiler pass at -O1; memmove/memcpy/memset "
                             "logged by the runtime; write-completeness audit on grids <= 600 nodes"])
 
